@@ -89,8 +89,11 @@ pub fn rkf45_step(rhs: &dyn Rhs<f64>, t: f64, y: &[f64], h: f64) -> (Vec<f64>, f
         h,
     );
     let y4 = axpy(y, &[(&k1, 25.0 / 216.0), (&k3, 1408.0 / 2565.0), (&k4, 2197.0 / 4104.0), (&k5, -1.0 / 5.0)]);
-    let y5 = axpy(y, &[(&k1, 16.0 / 135.0), (&k3, 6656.0 / 12825.0), (&k4, 28561.0 / 56430.0), (&k5, -9.0 / 50.0), (&k6, 2.0 / 55.0)]);
-    let e = dist2(&y4, &y5) / h.abs();
+    // y5 - y4 formed from the stage values alone (the difference of the two weight rows), so that the
+    // rounding of a large state does not enter the estimate: that is also how the library forms it
+    let zero = vec![0.0; y.len()];
+    let diff = axpy(&zero, &[(&k1, 1.0 / 360.0), (&k3, -128.0 / 4275.0), (&k4, -2197.0 / 75240.0), (&k5, 1.0 / 50.0), (&k6, 2.0 / 55.0)]);
+    let e = norm2(&diff) / h.abs();
     (y4, e)
 }
 
@@ -101,8 +104,9 @@ pub fn bs23_step(rhs: &dyn Rhs<f64>, t: f64, y: &[f64], h: f64) -> (Vec<f64>, f6
     let k3 = scaled(rhs, t + 3.0 * h / 4.0, &axpy(y, &[(&k2, 0.75)]), h);
     let y3 = axpy(y, &[(&k1, 2.0 / 9.0), (&k2, 1.0 / 3.0), (&k3, 4.0 / 9.0)]);
     let k4 = scaled(rhs, t + h, &y3, h);
-    let y2 = axpy(y, &[(&k1, 7.0 / 24.0), (&k2, 1.0 / 4.0), (&k3, 1.0 / 3.0), (&k4, 1.0 / 8.0)]);
-    let e = dist2(&y3, &y2) / h.abs();
+    let zero = vec![0.0; y.len()];
+    let diff = axpy(&zero, &[(&k1, -5.0 / 72.0), (&k2, 1.0 / 12.0), (&k3, 1.0 / 9.0), (&k4, -1.0 / 8.0)]);
+    let e = norm2(&diff) / h.abs();
     (y3, e)
 }
 
